@@ -58,20 +58,25 @@ def main():
                 continue
             err = rec['err']
             feats = []
-            if 3 in flagged:
+            cards = [(sf['n'], (sf['k'], tuple(sf['p']))) for sf in deck['surfs']]
+            later_dups = {n for i, (n, c) in enumerate(cards) if any(c == c2 for _, c2 in cards[:i])}
+            earlier_dups = {n for i, (n, c) in enumerate(cards) if any(c == c2 for _, c2 in cards[i + 1:])}
+            bodies = {sf['n'] for sf in deck['surfs'] if sf['k'] == 'rpp'}
+            cones = {sf['n'] for sf in deck['surfs'] if sf['k'] == 'kz'}
+            if later_dups & set(flagged):
                 feats.append('flag_on_later_duplicate')
-            if 2 in flagged:
+            if earlier_dups & set(flagged):
                 feats.append('flag_on_earlier_duplicate')
             if any(n not in used for n in flagged):
                 feats.append('flag_on_unused')
-            if 5 in flagged and deck.get('variant') == 'cone':
+            if cones & set(flagged) & used:
                 feats.append('flag_on_cone')
-            if 7 in flagged:
+            if bodies & set(flagged):
                 feats.append('flag_on_macrobody')
             sig = {'clause': kind, 'errtype': err['type'] if err else None, 'features': '+'.join(feats),
                    'dedup': '--skip-deduplication' not in meta[tid]['opts'], 'surface': k,
                    'surface_is_flagged_and_unused': bool(k in flagged and k not in used),
-                   'surface_is_later_duplicate': bool(k == 3 and 3 in flagged)}
+                   'surface_is_later_duplicate': bool(k in later_dups and k in flagged)}
             chk.violation(sig, {'text': rec['text'], 'opts': meta[tid]['opts'], 'error': err, 'deck': deck,
                                 'clauses': 'owner,bc', 'flagged': flagged})
     chk.cov['distinct_nontrivial'] = nt
